@@ -193,6 +193,21 @@ CHECKS['C07'] = dict(
          "of a static rule. The clauses above are necessary conditions (breaking one changes behaviour), not the whole property.",
     tech="static analysis: class-hierarchy exhaustiveness of dynamic_cast dispatch, CFG dominance of guards over subscripts/divisions, save/clear/restore typestate of the return flag")
 
+CHECKS['C08'] = dict(
+    text="Structural necessary conditions of the documented object model on all CFG paths of the anchored functions: construction order "
+         "(recursive base call → own field initialisers → body; consumed super statement skipped; own fields only, in layout order; `new` "
+         "starts the chain on the stamped class); destruction order (obj->cls upwards, own class context, qubit release last); dispatch "
+         "(virtual re-dispatch through receiver->cls->vtable[signature] under no further condition, never for class-reference receivers; "
+         "every virtual/override method registered in both table builders after the base-vtable copy; method body in its declaring "
+         "class's context); overloads (both resolvers walk the whole hierarchy, unique-minimum selection with tie detection at all 5 "
+         "sites, analyser and runtime cost tables equal each other and the documented costs on 14×15 type pairs by abstract evaluation "
+         "of their syntax trees, declared slots and activation results carry the declared class as static stamp, stamped nulls costed by "
+         "their stamp); statics (storage reached only through the owner found with the field, never copied from a base); phase "
+         "discipline (function table complete before any evaluation).",
+    note=TB + "NOT decided: equality of observable output with a reference model over all programs (differential property); generic "
+         "specialisation identity beyond C18. Two genuine defects found by these rules were repaired (b0b69bc, 887b4eb).",
+    tech="static analysis: CFG must-precede/must-follow ordering, guard-set exactness over enclosing conditions, loop-exit dependence analysis, sibling agreement, finite abstract evaluation (K-ABS) of the two cost functions")
+
 NOT_YET = "check not yet built in this round (framework under construction; see DESIGN.md §4 for the planned static rules)"
 
 
